@@ -153,6 +153,8 @@ def cases(tier, cfg):
         for x, g in st:
             if n == 5 and g not in ("ev1", "ev_over_ev"):
                 continue
+            if n > 4 and ("cof(" in x.l or "adj(" in x.l):
+                continue   # cofactor / adjoint exist for n <= 4 only: neither the eager nor the lazy spelling compiles beyond that
             if tier == "quick" and cfg.isa == "A2" and not (x.usesD or g == "ev1"):
                 continue   # quick: A2 re-runs the aliasing statements only (S2 and A5 carry the full family)
             forms = FORMS
